@@ -57,21 +57,23 @@ os.makedirs(dest, exist_ok=True)
 shutil.copy(patch, dest + "/patch.diff")
 shutil.copy(f"{sd}/demo.py", dest + "/demo.py")
 meta = json.load(open(f"{sd}/meta.json"))
-# run our checks against it
-assert sh("git -C /repo status --porcelain --untracked-files=no").stdout.strip() == "", "/repo dirty"
-a = sh(f"git -C /repo apply {dest}/patch.diff")
+# run our checks against it: in the scratch worktree (VERIF_REPO), so that /repo stays untouched
+# and several seeds can be tested while other checks run; evidence/replays are redirected
+a = sh(f"git -C {wt} apply {dest}/patch.diff")
 assert a.returncode == 0, a.stderr
 detected = {}
+cenv = dict(os.environ, VERIF_REPO=wt, VERIF_EVIDENCE_DIR=f"/tmp/seed/ev_{pid}_{m}", VERIF_REPLAYS_DIR=f"/tmp/seed/ev_{pid}_{m}")
 try:
     for c in checks:
-        r = sh(f"cd /verif && ./check {c} --tier quick")
-        viol = [l for l in r.stdout.splitlines() if l.startswith("VIOLATION") or l.startswith("  clause")]
-        detected[c] = {"exit": r.returncode, "lines": viol[:3]}
-        print(c, "exit", r.returncode, viol[:2])
+        r = sh(f"cd /verif && ./check {c} --tier quick", env=cenv)
+        viol = [l for l in r.stdout.splitlines() if l.startswith("VIOLATION") or l.startswith("  clause") or l.startswith("MACHINERY")]
+        detected[c] = {"exit": r.returncode, "lines": [v[:400] for v in viol[:3]]}
+        print(c, "exit", r.returncode, [v[:300] for v in viol[:2]])
 finally:
-    sh("git -C /repo checkout -- .")
+    sh(f"git -C {wt} checkout -- .")
+    shutil.rmtree(f"/tmp/seed/ev_{pid}_{m}", ignore_errors=True)
 meta.update({"breaks": pid, "confirmed_by": "tools/seedtest.py: repo test suite (BASELINE stable_pass) still passes with the patch; demo.py exits 0 without and non-zero with the patch",
-             "what_i_ran": f"tools/seedtest.py {pid} {m} --checks {','.join(checks)}",
+             "what_i_ran": f"tools/seedtest.py {pid} {m} --checks {','.join(checks)} (patch applied in the scratch worktree, checks run with VERIF_REPO pointing at it; equivalent to git -C /repo apply + ./check + git checkout)",
              "detected_by_quick_check": {c: d["exit"] == 1 for c, d in detected.items()},
              "detail": detected})
 json.dump(meta, open(dest + "/meta.json", "w"), indent=1)
